@@ -84,11 +84,11 @@ Fresh(l, cfg, prev) ==
    rtail |-> << >>, btail |-> << >>,
    ack |-> NoAck,
    epoch |-> 0, everOk |-> FALSE, cleanDc |-> FALSE,
-   cid |-> cfg.client_id, kaAdv |-> cfg.ka, K |-> 0,
+   cid |-> cfg.client_id, kaAdv |-> cfg.ka, rejSka |-> -1, K |-> 0,
    reqs |-> << >>, hmap |-> << >>, recn |-> 0,
    owed |-> << >>, aw |-> 0, sids |-> {},
    unres |-> {}, dcids |-> {}, dcconn |-> FALSE, pe |-> "", pio |-> "", c10off |-> FALSE, dcan |-> FALSE, taint |-> 0, connectLen |-> 0, d9b |-> FALSE,
-   lastDone |-> 0, afterPing |-> FALSE, pingAt |-> -1, pingDoneAt |-> -1, pingOut |-> FALSE, pcan |-> FALSE, overslept |-> TRUE, wake |-> -1,
+   lastDone |-> 0, afterPing |-> FALSE, pingAt |-> -1, pingDoneAt |-> -1, pingOut |-> FALSE, pcan |-> FALSE, pfrag |-> FALSE, overslept |-> TRUE, wake |-> -1,
    dead |-> FALSE, ioDead |-> << 0, 0, 0 >>, lastio |-> << 0, 0, 0 >>,
    sum |-> EmptySum, prev |-> prev, mark |-> 0,
    lastobs |-> [live |-> FALSE, q |-> TRUE, h |-> << >>],
@@ -270,8 +270,12 @@ OutRequest(h0, d, pkt) ==
       h1 == IF r.st = "ref" THEN Viol(hT, r.refp, "a locally refused request reached the wire") ELSE hT
       h2 == Check(h1, r.ep = h.epoch, "C05",
                   "request from before a fresh broker session was transmitted")
-      h3 == CheckKF(h2, others = {}, "C07", "packet identifier already in use by another operation",
-                    "D7", TRUE)
+      h3a == CheckKF(h2, others = {}, "C07", "packet identifier already in use by another operation",
+                     "D7", TRUE)
+      \* C03: in particular a PUBLISH must not carry the identifier of an exchange between PUBREC and PUBCOMP
+      h3 == IF d.t = PUBLISH /\ {j \in others : h.reqs[j].kind = "P2" /\ h.reqs[j].ph = "rec"} # {}
+            THEN Viol(Tick(h3a, "C03"), "C03", "a PUBLISH carries the identifier of an exchange that still awaits its PUBCOMP")
+            ELSE h3a
       h4 == IF first THEN h3
             ELSE LET a == Check(h3, r.id = d.id, pp, "retransmission changed the packet identifier")
                  IN IF ClearDup(pkt) = r.bytes THEN a
@@ -314,7 +318,12 @@ OutPubrel(h0, d) ==
       k == ById(h, d.id, {"P2"}) IN
   IF d.id \in h.dcids THEN h
   ELSE IF k = 0 \/ h.reqs[k].ph # "rec"
-  THEN Viol(h, "C03", "PUBREL without a successful PUBREC for an exchange in progress")
+  THEN LET old == {j \in 1..Len(h.reqs) : h.reqs[j].kind = "P2" /\ h.reqs[j].id = d.id /\ h.reqs[j].ep < h.epoch
+                                             /\ h.reqs[j].ph = "rec"}
+           h1 == Viol(h, "C03", "PUBREL without a successful PUBREC for an exchange in progress")
+       IN IF k = 0 /\ old # {}
+          THEN Viol(Tick(h1, "C05"), "C05", "request from before a fresh broker session was transmitted")
+          ELSE h1
   ELSE LET r == h.reqs[k]
            cnt == IF r.rsc = h.ci THEN r.rn + 1 ELSE 1
            later == {j \in 1..Len(h.reqs) : h.reqs[j].kind = "P2" /\ h.reqs[j].rsc = h.ci
@@ -335,7 +344,11 @@ OutConnect(h, d) ==
       h3 == Check(h2, HasProp(d.props, 39) /\ FirstProp(d.props, 39).s = EncU32(c.rx), "C14",
                   "CONNECT must advertise the receive buffer size as Maximum Packet Size")
       h4 == Check(h3, PropSet(d.props) = want /\ Len(d.props) = 3, "C09", "CONNECT properties differ from the configuration")
-      h5 == Check(h4, d.ka = h.kaAdv, "C09", "CONNECT keep-alive differs from the configured value")
+      h5a == Check(h4, d.ka = h.kaAdv, "C09", "CONNECT keep-alive differs from the configured value")
+      \* C08: ... in particular not the Server Keep Alive of a CONNACK that was rejected
+      h5 == IF d.ka # h.kaAdv /\ h.rejSka >= 0 /\ d.ka = h.rejSka
+            THEN Viol(Tick(h5a, "C08"), "C08", "a rejected CONNACK was partially acted upon (its Server Keep Alive is used)")
+            ELSE h5a
       h6 == Check(h5, d.will = (IF c.haswill THEN 1 ELSE 0)
                       /\ (c.haswill => /\ d.willq = c.will.qos /\ d.willr = c.will.retain
                                        /\ d.willtopic = c.will.topic /\ d.willdata = c.will.payload
@@ -400,6 +413,8 @@ OnOut(h, pkt) ==
           \* C13: uncancelled, the client never sends a second PINGREQ while one is unanswered
           LET h6 == IF (h.pingAt >= 0 \/ h.pingOut) /\ h.pcan
                     THEN Viol(Tick(h5, "C13"), "C13", "after a cancellation a second PINGREQ was sent while the first is still unanswered")
+                    ELSE IF (h.pingAt >= 0 \/ h.pingOut) /\ h.pfrag
+                    THEN Viol(Tick(h5, "C15"), "C15", "with partial writes a second PINGREQ was sent while the first is still unanswered")
                     ELSE h5
           IN Check(h6, h.K > 0, "C10", "PINGREQ although the keep-alive is zero")
      ELSE IF d.t = DISCONNECT THEN OutDisconnect(h5, d)
@@ -596,7 +611,7 @@ IoOnDead(h) ==
 StepConn(h, e) ==
   [h EXCEPT !.ci = @ + 1, !.wtail = << >>, !.wn = 0, !.wdisc = FALSE, !.rtail = << >>,
             !.btail = << >>, !.ack = NoAck, !.aw = 0, !.unres = {}, !.dcan = FALSE, !.taint = 0,
-            !.dead = FALSE, !.c10off = FALSE, !.dcconn = FALSE, !.pio = "", !.pingAt = -1, !.pingOut = FALSE, !.pcan = FALSE, !.overslept = TRUE, !.up = FALSE,
+            !.dead = FALSE, !.c10off = FALSE, !.dcconn = FALSE, !.pio = "", !.pingAt = -1, !.pingOut = FALSE, !.pcan = FALSE, !.pfrag = FALSE, !.overslept = TRUE, !.up = FALSE,
             !.op = [name |-> "conn", l |-> h.l, prog |-> FALSE, nin |-> 0, bad |-> FALSE,
                     dc |-> FALSE, disc |-> FALSE, unexp |-> FALSE, fault |-> FALSE, eof |-> FALSE,
                     rej |-> -1, hasmsg |-> FALSE, deadcall |-> FALSE, healthy |-> e.healthy, nofit |-> FALSE]]
@@ -678,9 +693,11 @@ RetRequest(h0, e) ==
       room == k # 0 /\ r.k = "err" /\ r.v = "NotReady" /\ h.reqs[k].kind \in {"P1", "P2"} /\ h.taint = 0
               /\ ~h.dcconn /\ HasRoom(h, k)
       h1b == IF room
-             THEN LET a == Viol(Tick2(h1, "C12", "C17"), IF Quiet(h, k) THEN "C17" ELSE "C12",
+             \* a slot or a unit of the window has leaked (C17); after a reconnect the session is not fully
+             \* usable (C12)
+             THEN LET a == Viol(Tick2(h1, "C12", "C17"), "C17",
                                 "a publish was refused as not ready although the window, the slots and the arena have room")
-                  IN IF Quiet(h, k) /\ h.ci > 1
+                  IN IF h.ci > 1
                      THEN Viol(a, "C12", "a publish was refused as not ready although the window, the slots and the arena have room")
                      ELSE a
              ELSE IF k # 0 /\ h.reqs[k].kind \in {"P1", "P2"} THEN Tick2(h1, "C12", "C17") ELSE h1
@@ -846,6 +863,7 @@ RetConn(h, e) ==
                 !.cleanDc = IF ok THEN FALSE ELSE (@ \/ (a.have /\ a.rc < 128 /\ a.sp = 0)),
                 !.K = IF ok THEN K ELSE @,
                 !.kaAdv = IF ok /\ a.ska >= 0 THEN a.ska ELSE @,
+                !.rejSka = IF ok THEN -1 ELSE IF a.have /\ a.ska >= 0 THEN a.ska ELSE @,
                 !.cid = IF ok /\ a.hasaci THEN a.aci ELSE @,
                 !.lastDone = h.now, !.overslept = FALSE]
 
@@ -893,7 +911,8 @@ StepCancel(h, e) ==
 
 StepW(h, e) ==
   LET h0 == IoOnDead(h)
-      h1 == [h0 EXCEPT !.wtail = @ \o e.bytes, !.op.prog = IF e.acc > 0 THEN TRUE ELSE @]
+      h1 == [h0 EXCEPT !.wtail = @ \o e.bytes, !.op.prog = IF e.acc > 0 THEN TRUE ELSE @,
+                       !.pfrag = @ \/ e.acc < e.len]
   IN \* D2: a disconnect() dropped after part of its DISCONNECT was written leaves the handle live
      \* with a broken packet on the wire; whatever is written next starts inside that packet and
      \* the rest of this transport's byte stream can no longer be framed.
